@@ -54,6 +54,17 @@ def _has_quantifier(t):
     return r
 
 
+def flatten_and(g):
+    out, todo = [], [g]
+    while todo:
+        x = todo.pop(0)
+        if z3.is_and(x):
+            todo = list(x.children()) + todo
+        elif not z3.is_true(x):
+            out.append(x)
+    return out or [z3.BoolVal(True)]
+
+
 class Obl:
     __slots__ = ("name", "hyps", "goal", "kind", "meta")
 
@@ -127,6 +138,14 @@ class Engine:
                 out.append((val, s2))
         self.stats["forks"] += 1
         return out
+
+    def oblige_split(self, st, goal, what, kind="side", meta=None):
+        """one obligation per top-level conjunct (smaller, more stable queries; finer-grained names)"""
+        parts = flatten_and(goal)
+        if len(parts) == 1:
+            return self.oblige(st, goal, what, kind, meta)
+        for i, g in enumerate(parts):
+            self.oblige(st, g, f"{what}.{i + 1}", kind, meta)
 
     def oblige(self, st, goal, what, kind="side", meta=None):
         name = f"{self.prefix}/{what}"
